@@ -72,6 +72,18 @@ func everyIteration(p *core.Program, info *types.Info, body *ast.BlockStmt, s as
 					}
 				case *ast.BranchStmt:
 					if b.End() <= s.Pos() {
+						// a skip that only depends on the absence of optional data is part of the rule's domain
+						if conds := enclosingConds(lb, b); len(conds) > 0 {
+							all := true
+							for _, cnd := range conds {
+								if !allowCond(cnd, true) {
+									all = false
+								}
+							}
+							if all {
+								return true
+							}
+						}
 						why = fmt.Sprintf("a `%s` at %s can skip it for some elements", b.Tok, p.Rel(b.Pos()))
 					}
 				}
@@ -118,6 +130,37 @@ func nilTestOnly(info *types.Info) func(ast.Expr, bool) bool {
 				return rec(be.X) && rec(be.Y)
 			case token.EQL, token.NEQ:
 				return core.IsNil(info, be.X) || core.IsNil(info, be.Y)
+			}
+		}
+		return false
+	}
+	return func(e ast.Expr, _ bool) bool { return rec(e) }
+}
+
+// nilTestOfOperands accepts conditions made only of nil tests of expressions
+// that the statement itself uses (a guard for the presence of the very data the
+// statement works on), not of unrelated optional data.
+func nilTestOfOperands(info *types.Info, stmt ast.Node) func(ast.Expr, bool) bool {
+	used := map[string]bool{}
+	ast.Inspect(stmt, func(n ast.Node) bool {
+		if e, ok := n.(ast.Expr); ok {
+			used[types.ExprString(ast.Unparen(e))] = true
+		}
+		return true
+	})
+	var rec func(e ast.Expr) bool
+	rec = func(e ast.Expr) bool {
+		e = ast.Unparen(e)
+		if be, ok := e.(*ast.BinaryExpr); ok {
+			switch be.Op {
+			case token.LAND, token.LOR:
+				return rec(be.X) && rec(be.Y)
+			case token.EQL, token.NEQ:
+				x, y := ast.Unparen(be.X), ast.Unparen(be.Y)
+				if core.IsNil(info, x) {
+					x, y = y, x
+				}
+				return core.IsNil(info, y) && used[types.ExprString(x)]
 			}
 		}
 		return false
